@@ -599,9 +599,14 @@ def run_unit(unit: str, dst: str, root: str):
     return res
 
 
+# C15 (partial): the `total` clause (no overflow, no index / slice out of range, no unwrap of nothing, callee preconditions,
+# termination of every loop) of every hand-written function between the input text and the result
+C15_UNITS = ("assembler", "lexer", "numbers", "driver", "loader", "printer", "transfer")
+
+
 def run_for_property(pid, tier, seed, dst, root, rep, findings):
     import replay as replay_mod
-    todo = [u for u, d in UNITS.items() if pid in d["props"] and os.path.exists(os.path.join(CDIR, d["tpl"]))]
+    todo = [u for u, d in UNITS.items() if (pid in d["props"] or (pid == "C15" and u in C15_UNITS)) and os.path.exists(os.path.join(CDIR, d["tpl"]))]
     if not todo:
         return
     kf = [f for f in findings if f.get("status") == "known" and f.get("engine") == "verus"]
@@ -624,18 +629,20 @@ def run_for_property(pid, tier, seed, dst, root, rep, findings):
             vacuous, vwall, vnames = vres
             rep.extra.setdefault("vacuity_probe", []).append({"unit": unit, "functions_probed": len(vnames), "all_refute_ensures_false": not vacuous, "wall_s": round(vwall, 1)})
             for name in vacuous:
-                if name not in r.get("out_of_reach", []) and pid in (fn_props(unit, name) + UNITS[unit]["props"]):
+                if name not in r.get("out_of_reach", []) and (pid in (fn_props(unit, name) + UNITS[unit]["props"]) or pid == "C15"):
                     rep.undecided.append(f"verus {unit}::{name}: VACUOUS -- the function verifies `ensures false` (contradictory precondition, assumed contract or invariant); its obligations prove nothing")
         for name in r.get("out_of_reach", []):
-            if pid in fn_props(unit, name):
+            if pid in fn_props(unit, name) or pid == "C15":
                 rep.undecided.append(f"verus {unit}::{name}: construct outside Verus' subset (function isolated; the rest of the unit was verified)")
                 ntotal += 1
         for f in r["fns"]:
             fprops = fn_props(unit, f["name"])
+            if pid == "C15" and unit in C15_UNITS and f["kind"] == "exec":
+                fprops = fprops + ["C15"]
             allc = []
             # C09 (totality, addresses inside 1 MB) is carried by `total` and by the address helpers' postconditions; the
             # postconditions of the other functions state what they compute, and a change there is not a C09 matter
-            functional = fprops if re.fullmatch("make_valid_address|calculate_from_offset", f["name"]) else ([q for q in fprops if q != "C09"] or fprops)
+            functional = fprops if re.fullmatch("make_valid_address|calculate_from_offset", f["name"]) else ([q for q in fprops if q not in ("C09", "C15")] or fprops)
             for c in f["clauses"]:
                 if pid in (c.get("props") or functional):
                     allc.append((c.get("name") or f"ensures#{c['k']}", c["status"], c["text"]))
@@ -644,7 +651,7 @@ def run_for_property(pid, tier, seed, dst, root, rep, findings):
                     allc.append((tg["name"], tg["status"], tg["text"]))
             if pid in fprops:
                 allc.append(("total", f["total"], "no overflow / index in bounds / callee preconditions / termination"))
-            if f.get("has_loops") and pid in ([q for q in fprops if q != "C09"] or fprops):
+            if f.get("has_loops") and pid in ([q for q in fprops if q not in ("C09", "C15")] or fprops):
                 allc.append(("loop-invariants", f.get("invariants", "discharged"), "untagged loop invariants (what the loop has computed so far)"))
             if not allc:
                 continue
